@@ -15,8 +15,10 @@ body against the exact model evaluated on the head mapping that
 build_head_mapping produced.
 """
 import math
+import os
 
-import numpy as np
+os.environ.setdefault('OPENBLAS_NUM_THREADS', '1')   # (before numpy is loaded: a busy machine makes threaded BLAS 100x slower on the large cases)
+import numpy as np  # noqa: E402
 
 from harness import common as C
 from harness import gen_offsets as GO
@@ -73,6 +75,140 @@ def gen_collection(rng, tie=False, degenerate=False):
     if degenerate:
         add_degenerate(rng, series, L, step, grid)
     return series, grid, planted
+
+
+# sample indices at which software that works through a long series in pieces is likely to cut it
+SEAM_BLOCKS = (500, 512)          # (their multiples include 1000, 1024, 2048, 4096, 8192, 10000)
+
+
+def seams_of(n):
+    """Indices b (0 < b < n) that are multiples of 500 or 512: the segment between samples b-1 and b straddles a cut."""
+    return sorted({b for blk in SEAM_BLOCKS for b in range(blk, n, blk)})
+
+
+def gen_many_collection(rng, min_eq=5000, max_eq=9000):
+    """LARGE collection: 45-160 NOISY pieces of one decreasing curve, each 40-110 samples long over 30-90 grid levels
+    (more than 4096 (level, interval) equations in all, not a multiple of the usual block sizes), a third of them
+    starting from exactly the same ponded level (ties of the initial level: the order of presentation then decides
+    the internal order of the intervals)."""
+    M = 240
+    L = [0.0]
+    for _ in range(M):
+        L.append(L[-1] - rng.choice([0.25, 0.5, 0.75, 1.0, 1.5]))
+    step = rng.choice([600.0, 1800.0, 3600.0])
+    grid = rng.choice([0.5, 1.0])
+    target = rng.randrange(min_eq, max_eq)
+    series, total = [], 0
+    while total < target:
+        ln = rng.randrange(40, 111)
+        m0 = 0 if rng.random() < 0.33 else rng.randrange(0, M - ln)
+        t0 = float(rng.choice([0, 1361318400, 86400 * 3]))
+        H = [L[m0 + i] + (rng.randrange(-8, 9) / 64.0 if i else 0.0) for i in range(ln + 1)]
+        series.append((np.array([t0 + i * step for i in range(ln + 1)]), np.array(H)))
+        total += int((H[0] - H[-1]) / grid)
+    return series, grid, 0, [], dict(large='many noisy intervals', coq=False)
+
+
+def gen_steep_collection(rng, n_max=5000):
+    """LARGE collection: two LONG intervals (1500-n_max samples) over the same levels, so steep that EVERY pair of
+    consecutive samples passes one or two grid levels (whatever the block size in which a long series might be worked
+    through, a crossing sits in the segment straddling the cut), sampled differently (the cuts of one fall elsewhere
+    than the cuts of the other), plus a short interval near the top.  Every level is shared by the two."""
+    grid = rng.choice([0.5, 1.0])
+    step = rng.choice([600.0, 1800.0])
+    top = -rng.randrange(0, 40) - 0.375
+    series = []
+    n1 = rng.randrange(1500, n_max + 1)
+    depth = None
+    for j in range(2):
+        H = [top + j * 0.25 * grid]
+        while (depth is None and len(H) < n1) or (depth is not None and H[-1] > depth):
+            H.append(H[-1] - rng.choice([1.0, 1.125, 1.25, 1.5, 1.75]) * grid)
+        depth = H[-1] + 2 * grid if depth is None else depth
+        series.append((np.array([float(j) * 1361318400.0 + i * step for i in range(len(H))]), np.array(H)))
+    H = [top + 1.5 * grid - 0.75 * grid * i for i in range(6)]
+    series.append((np.array([i * step for i in range(len(H))]), np.array(H)))
+    rng.shuffle(series)
+    return series, grid, 0, [], dict(large='two long intervals, every pair of samples passes a grid level', coq=False)
+
+
+def gen_long_collection(rng, n_max=5000):
+    """LARGE collection around one or two LONG intervals (1500-n_max samples of a slow recession) in which a grid
+    level is crossed exactly in every seam segment (between samples b-1 and b for b a multiple of 500 or 512;
+    sometimes the later sample sits exactly on the grid line), plus SHORT intervals that cross nothing but such a
+    level (their only link with the main body), plus a few ordinary pieces overlapping the top of the long interval.
+    A second long interval, when present, continues below the first (sharing its lowest levels)."""
+    grid = rng.choice([0.5, 1.0])
+    step = rng.choice([600.0, 1800.0])
+    series, seam_levels = [], []
+
+    def long_interval(top, n):
+        H = [top]
+        for i in range(1, n):
+            if i in seams:
+                k = math.ceil(H[-1] / grid) - 1                  # the grid line strictly below the previous sample
+                H.append(k * grid - rng.choice([0.0, 0.015625, 0.0625, 0.125]))
+                seam_levels.append(k)
+            else:
+                H.append(H[-1] - rng.choice([1, 1, 2, 3]) / 256.0)
+        return H
+    n1 = rng.randrange(1500, n_max + 1)
+    while any(n1 % b == 0 for b in SEAM_BLOCKS):
+        n1 += 1
+    seams = set(seams_of(n1))
+    top = -rng.randrange(0, 40) - 0.375
+    H1 = long_interval(top, n1)
+    series.append((np.array([i * step for i in range(n1)]), np.array(H1)))
+    if rng.random() < 0.5:
+        n2 = rng.randrange(1500, 3001)
+        seams = set(seams_of(n2))
+        # starts two grid steps above the end of the first: shares its lowest level(s), none of the seam levels
+        H2 = long_interval(H1[-1] + 1.75 * grid, n2)
+        series.append((np.array([1361318400.0 + i * step for i in range(n2)]), np.array(H2)))
+    # short intervals: down through one seam level and nothing else
+    for k in seam_levels:
+        for _ in range(rng.choice([0, 1, 1, 2])):
+            a = rng.choice([0.375, 0.25])
+            H = [k * grid + a * grid, k * grid + 0.125 * grid, k * grid - 0.25 * grid, k * grid - 0.375 * grid]
+            t0 = float(rng.choice([0, 1361318400, 86400 * 3]))
+            series.append((np.array([t0 + i * step for i in range(len(H))]), np.array(H)))
+    # ordinary pieces around the top of the first long interval (above its first seam)
+    for _ in range(rng.randrange(2, 5)):
+        ln = rng.randrange(4, 10)
+        h0 = top + rng.randrange(2, 12) * 0.5
+        H = [h0 - 0.75 * i + (rng.randrange(-8, 9) / 64.0 if i else 0.0) for i in range(ln + 1)]
+        series.append((np.array([i * step * 6 for i in range(ln + 1)]), np.array(H)))
+    order = list(range(len(series)))
+    rng.shuffle(order)
+    return [series[i] for i in order], grid, 0, [], dict(large='long interval(s) with crossings in the seam segments', coq=False)
+
+
+def fresh_body_complaint(series, grid, res, out=None):
+    """Function level, decided from the samples alone (exact chords, union-find - nothing of spowtd): the intervals
+    that received an offset are exactly the main body (the largest set of intervals linked by shared levels), and
+    every level that two intervals of the body share is part of the returned mapping."""
+    fresh = fresh_mapping(series, grid)
+    multi = {h: [(i, t) for i, t in per.items()] for h, per in fresh.items() if len(per) >= 2}
+    if not multi:
+        return None
+    comps = GO.components(multi)
+    sizes = [sum(1 for seq in multi.values() if any(i in comp for i, _ in seq)) for comp in comps]
+    if sizes.count(max(sizes)) > 1:
+        if out is not None:
+            out.count('tie-for-largest(fresh; no exact check)')
+        return None
+    body = comps[sizes.index(max(sizes))]
+    if sorted(res[1]) != sorted(body):
+        lost = sorted(set(body) - set(res[1]))
+        return ('included intervals differ from the main body decided from the samples: %d included, %d in the body; '
+                'left out although linked to it by a shared level: %s; included although not linked: %s'
+                % (len(res[1]), len(body), [(i, 'samples %d, levels %s' % (len(series[i][1]), sorted(h for h, per in fresh.items() if i in per and len(per) >= 2)[:4]))
+                                            for i in lost[:4]], sorted(set(res[1]) - set(body))[:6]))
+    want = {h for h, seq in multi.items() if any(i in body for i, _ in seq)}
+    if set(res[3]) != want:
+        return ('levels of the returned mapping differ from the levels shared within the main body: missing %s, extra %s'
+                % (sorted(want - set(res[3]))[:6], sorted(set(res[3]) - want)[:6]))
+    return None
 
 
 DEGENERATE_SHAPES = ['flat', 'flat-on-grid-line', 'two-samples', 'two-samples-within-a-cell', 'touch-from-above',
@@ -223,11 +359,16 @@ def check_collections(cols, out, label):
     for col in cols:
         series, grid, planted = col[:3]
         history = list(col[3]) if len(col) > 3 and col[3] else []
+        opts = col[4] if len(col) > 4 and col[4] else {}
+        large = opts.get('large')
         out.evaluations += 1
         out.count('planted-disconnected' if planted else 'connected-only')
-        for shape in collection_shapes(series, grid):
-            out.count('collection holds ' + shape)
+        if not large:
+            for shape in collection_shapes(series, grid):
+                out.count('collection holds ' + shape)
         case = dict(level='FL', grid=grid, series=[[t.tolist(), H.tolist()] for t, H in series])
+        if opts:
+            case['opts'] = opts
         if history:
             # the same intervals have been aligned before in this process, on other grid steps: the earlier calls
             # must not leave anything behind (their own results are checked against the samples too)
@@ -244,7 +385,24 @@ def check_collections(cols, out, label):
             if bad0:
                 out.violation('oracle', '%s%s' % ('after an earlier alignment of the same intervals on grid step(s) %s, on grid '
                                                   'step %s: ' % (history, grid) if history else '', bad0), case=case)
+        if large:
+            count_large(series, grid, base, large, out)
         body, hm_raw = main_body(series, grid)
+        if base[0] == 'ok':
+            # main body decided from the samples alone (every collection); large ones: the alignment against one computed
+            # with ANOTHER internal zero
+            bad1 = fresh_body_complaint(series, grid, base, out)
+            if bad1:
+                out.violation('oracle', bad1, case=case)
+            elif large and len(base[1]) >= 2:
+                rows = [(i, h, t) for h, seq in base[3].items() for i, t in seq]
+                want_m, got_m = independent_master_projected(list(reversed(rows))), master_of(base)
+                worst = max(want_m, key=lambda h: abs(want_m[h] - got_m[h]))
+                if abs(want_m[worst] - got_m[worst]) > 1e-6 * (1 + max(abs(v) for v in want_m.values())):
+                    out.violation('oracle', 'the master curve depends on the internal zero: at level %d the returned offsets give '
+                                  '%r, the same crossings aligned with another interval as internal zero give %r (%d intervals, '
+                                  '%d crossings; origin at the highest level)' % (worst, got_m[worst], want_m[worst], len(base[1]),
+                                                                                 len(rows)), case=case)
         if base[0] == 'err':
             if body is not None and len(body) >= 2:
                 out.violation('oracle', 'get_series_time_offsets raised %s although %d intervals overlap' % (base[2], len(body)), case=case)
@@ -288,6 +446,10 @@ def check_collections(cols, out, label):
                               % (name, worst, len(m0), len(m2)), case=case)
         if planted and body is not None and len(base[1]) >= 3:
             out.nontriv(('c08', str(case['series'])[:400]))
+        if large and body is not None and len(base[1]) >= 3:
+            out.nontriv(('c08-large', large, len(series), sum(len(H) for _, H in series)))
+        if opts.get('coq') is False:
+            continue                    # large cases: the oracles above judge them; reading them into Coq would dominate the run
         # --- Coq correspondence
         dec = sorted(((t - t.min(), H, i) for i, (t, H) in enumerate(series)), key=lambda x: x[1][0])
         hm = fo.build_head_mapping([(t, H) for t, H, _ in dec], grid)
@@ -320,6 +482,30 @@ def check_collections(cols, out, label):
     out.corr_errors += errs
     for i in bad:
         out.violation('corr', 'model offsets_from_mapping <> get_series_time_offsets (ids / offsets / levels)', case=off_meta[i])
+
+
+def count_large(series, grid, base, large, out):
+    """What a large collection exercised (measured on the case, for the evidence)."""
+    out.count('large: ' + large)
+    longest = max(len(H) for _, H in series)
+    out.count('large: longest interval %s samples' % ('> 8192' if longest > 8192 else '4097-8192' if longest > 4096 else '1025-4096' if longest > 1024 else '<= 1024'))
+    if base[0] != 'ok':
+        return
+    neq = sum(len(seq) for seq in base[3].values())
+    out.count('large: %s (level, interval) equations' % ('> 8192' if neq > 8192 else '4097-8192' if neq > 4096 else '<= 4096'))
+    if neq > 4096 and all(neq % b for b in GO.BLOCKS):
+        out.count('large: > 4096 equations, no multiple of 1000/1024/4096/8192/10000')
+    firsts = sorted((float(H[0]) for _, H in series), reverse=True)
+    if firsts.count(firsts[0]) >= 3:
+        out.count('large: >= 3 intervals start from the same highest level')
+    pos = {i: k for k, i in enumerate(base[1])}
+    n_seam = 0
+    for i, (t, H) in enumerate(series):
+        if len(H) > 1000 and i in pos:
+            Y = [float(v) / grid for v in H]
+            n_seam += sum(1 for b in seams_of(len(H)) if math.ceil(Y[b]) < math.ceil(Y[b - 1]))
+    if n_seam:
+        out.count('large: grid levels crossed inside a seam segment (samples b-1, b; b multiple of 500 or 512)', n_seam)
 
 
 def gen_sah(rng):
@@ -415,6 +601,20 @@ def independent_master(rows):
     sol = np.linalg.lstsq(A, b, rcond=None)[0]
     m = sol[n_x:]
     return {h: float(m[li[h]] - m[li[levels[-1]]]) for h in levels}
+
+
+def independent_master_projected(rows):
+    """The same as independent_master for LARGE problems (thousands of levels): the level means are eliminated by hand -
+    per level the projector I - J/n on the intervals crossing it (gen_offsets.normal_system; the SMALLEST interval
+    number is the internal zero, the code fixes the largest of its own ordering), a small square solve, then the
+    master curve = level means of (offset + crossing) with the origin at the highest level."""
+    hm = {}
+    for s_, h, c in rows:
+        hm.setdefault(h, []).append((s_, c))
+    y = GO.independent_offsets(hm)
+    m = {h: math.fsum(y[s_] + c for s_, c in seq) / len(seq) for h, seq in hm.items()}
+    top = max(m)
+    return {h: v - m[top] for h, v in m.items()}
 
 
 def command_series(res, kind):
@@ -543,6 +743,15 @@ def run(ctx, out):
     # and turning back, ending on a grid line, exact duplicates, repeated last level); own random stream
     rngd = C.rng_for(seed, PROP, 'degenerate')
     cols += [gen_collection(rngd, tie=(k % 4 == 3), degenerate=True) for k in range(n // 3)]
+    # large-input stage (oracle only, own random streams): many noisy intervals (> 4096 equations, ties of the initial
+    # level) and long intervals (1500-5000 samples) with crossings in the seam segments + short intervals hanging there
+    for k in range(1 if tier == 'quick' else 5):
+        cols.append(gen_many_collection(C.rng_for(seed, PROP, 'many', k)) if k < 2 else
+                    gen_many_collection(C.rng_for(seed, PROP, 'many', k), min_eq=[8200, 10001, 12300][k - 2], max_eq=[9999, 12200, 16000][k - 2]))
+    for k in range(2 if tier == 'quick' else 10):
+        cols.append(gen_long_collection(C.rng_for(seed, PROP, 'long', k), n_max=5000 if k < 6 else 11000))
+    for k in range(1 if tier == 'quick' else 4):
+        cols.append(gen_steep_collection(C.rng_for(seed, PROP, 'steep', k), n_max=5000 if k < 2 else 11000))
     check_collections(cols, out, 'fl')
     rng2 = C.rng_for(seed, PROP, 'sah')
     check_sah_direct([gen_sah(rng2) for _ in range(400 if tier == 'quick' else 4000)], out, 'cc')
@@ -562,7 +771,13 @@ def run(ctx, out):
                 'after the same intervals were aligned on another grid step in the same process; the returned crossings '
                 'against the samples (exact chords); a quarter more collections hold intervals of degenerate shape '
                 '(constant level, two samples, coming down to a grid line and turning back, ending on a grid line, exact '
-                'duplicates, repeated last level). CL: planted records (some with 1-2 storms far below the others) through '
+                'duplicates, repeated last level). Large-input stage (oracle only, not sent to Coq): 45-160 noisy intervals with '
+                '5000-9000 (level, interval) equations, a third of them starting from the same level; one or two intervals of '
+                '1500-5000 samples with a grid level crossed in every segment between samples b-1 and b (b multiple of 500 or 512) '
+                'and short intervals crossing only such a level; two intervals of 1500-5000 samples so steep that every pair of '
+                'samples passes a grid level; judged by the main body decided from the samples (exact '
+                'chords, union-find), the crossings against exact chords, the four presentations, and an independent alignment '
+                'with another internal zero. CL: planted records (some with 1-2 storms far below the others) through '
                 'the CLI: aligned intervals = main body decided from the samples, stored crossings against exact chords, the '
                 'view rising_curve_line_segment and the master-curve views against the tables. '
                 'Non-trivial: planted disconnected group, unique largest component, >= 3 intervals included. '
@@ -584,4 +799,4 @@ def replay(case, out):
         check_sah_direct([dict((h, set(ss)) for h, ss in case['sah'])], out, 'replay')
         return
     series = [(np.array(t), np.array(H)) for t, H in case['series']]
-    check_collections([(series, case['grid'], 0, case.get('history') or [])], out, 'replay')
+    check_collections([(series, case['grid'], 0, case.get('history') or [], case.get('opts') or {})], out, 'replay')
